@@ -69,7 +69,7 @@ def syncPeriod (epp epoch : Nat) : Nat := epoch / epp
 
 /-- The committee `compute_subnets_for_sync_committee` / `get_sync_subcommittee_pubkeys` read, for a state at
 `slot`: `current_sync_committee` if `period(epoch(slot)) == period(epoch(slot + 1))`, else `next_sync_committee`. -/
-def syncCommitteeFor (spe epp slot : Nat) (cur next : List UInt64) : List UInt64 :=
+def syncCommitteeFor {α} (spe epp slot : Nat) (cur next : α) : α :=
   if syncPeriod epp (epochAt spe slot) == syncPeriod epp (epochAt spe (slot + 1)) then cur else next
 
 /-- `compute_subnets_for_sync_committee(state, validator_index)`: `{ i // (SIZE // SUBNET_COUNT) | committee[i] = validator }` -/
@@ -380,7 +380,8 @@ def contribConds (i : ContribIn) : List Cond :=
   I "first contribution for (aggregator, slot, subcommittee)" (!i.seen),
   R "selection proof is a valid signature" (!ctx || i.selSig),
   R "aggregator signature valid" (!ctx || i.outerSig),
-  R "contribution signature valid" (!ctx || i.contribSigSpec),
+  R "contribution signature valid" (!ctx ||
+      syncCommitteeFor i.spe.toNat i.epp.toNat i.slot.toNat i.contribSigCur i.contribSigNext),
   I "implied: block root known at the slot (state can be determined)" i.blockKnown,
   L "local: epochs context / domain available" (!i.blockKnown || (i.epc && i.domainOk))
   ]
